@@ -12,6 +12,10 @@ import (
 )
 
 // genC18 reuses the conversation, command, registry and disconnect scenarios (C06, C09, C11, C12, C13).
+// raceCmdIDs: the commands of the C12/C13 scenarios plus 0x9003, whose answer 0x1003 carries no serial and is
+// matched to whatever command is outstanding (harmless here: RACE mode has no matching oracle).
+var raceCmdIDs = append(append([]uint16(nil), cmdIDs...), 0x9003, 0x9003)
+
 func genC18(seed uint64, tier string, idx int) *Plan {
 	var p *Plan
 	sel := seed % 6
@@ -32,6 +36,17 @@ func genC18(seed uint64, tier string, idx int) *Plan {
 		p = genC12(seed, tier, idx)
 	default:
 		p = genC13(seed, tier, idx)
+	}
+	if sel == 3 || sel == 4 {
+		// some commands become 0x9003, whose answer (0x1003) is itself a message with a default reply
+		r := newRng(seed ^ 0x9003)
+		for _, a := range p.Actors {
+			for i := range a.Ops {
+				if a.Ops[i].K == "call" && a.Ops[i].Call != nil && r.chance(20) {
+					a.Ops[i].Call.Cmd = 0x9003
+				}
+			}
+		}
 	}
 	p.Note = "scenario of " + p.Prop
 	p.Prop = "C18"
@@ -73,7 +88,7 @@ func genC18Shared(seed uint64, tier string) *Plan {
 		ca := &Actor{Name: fmt.Sprintf("call%d", k), Conn: -1}
 		dep := &Dep{Actor: "c0", N: joinOps + g.r.intn(len(a.Ops)-joinOps)}
 		ca.Ops = append(ca.Ops, Op{K: "call", After: dep,
-			Call: &CallSpec{Key: ref.PhoneDigits(p.Conns[ci].Phone), Cmd: cmdIDs[g.r.intn(len(cmdIDs))], Body: []byte{0xCD, byte(k)}, Timeout: int64(300+g.r.intn(3000)) * 1e6}})
+			Call: &CallSpec{Key: ref.PhoneDigits(p.Conns[ci].Phone), Cmd: raceCmdIDs[g.r.intn(len(raceCmdIDs))], Body: []byte{0xCD, byte(k)}, Timeout: int64(300+g.r.intn(3000)) * 1e6}})
 		p.Actors = append(p.Actors, ca)
 	}
 	p.Conns[ci].React = []Reaction{{Kind: "ok", Delay: int64(g.r.intn(50)) * 1e6}}
